@@ -15,4 +15,5 @@ let lookup (p : string) : Model.sexp -> Model.sexp =
   | "c20" -> Model.run_c20
   | "c07" -> Model.run_c07
   | "c09" -> Model.run_c09
+  | "c12" -> Model.run_c12
   | _ -> failwith ("unknown property " ^ p)
